@@ -246,8 +246,36 @@ func c18ServerRun(e *Env) {
 		}
 	}
 
+	// udp: the application looks connections up by address (Server.NewConn) whenever it has something for a peer -
+	// that is the application's activity, not a sign of life of the peer
+	lookups := kind == "udp" && t.Chance(1, 3)
+	lookup := func() {
+		if !lookups {
+			return
+		}
+		e.Wait() // (a close decided at the last tick has happened by now: a closed connection is not looked up again)
+		checkClosed()
+		open := func(p *c18Peer) bool {
+			w.mu.Lock()
+			defer w.mu.Unlock()
+			cs := w.conns[p.c.addr.String()]
+			if len(cs) == 0 {
+				return false
+			}
+			cc, ok := cs[len(cs)-1].(interface{ Context() context.Context })
+			return ok && cc.Context().Err() == nil
+		}
+		for _, p := range peers {
+			if !p.alive && !p.closed && live(p) && open(p) {
+				if _, err := w.udpSrv.NewConn(p.c.addr); err == nil {
+					e.Probe("server.applicationLooksUpDeadPeer")
+				}
+			}
+		}
+	}
 	nSteps := int(maxRetries) + 3 + t.Choose(6)
 	for i := 0; i < nSteps && e.Budget(); i++ {
+		lookup()
 		switch t.Weighted(5, 2) {
 		case 0:
 			dt := period + []time.Duration{1, time.Millisecond, time.Second, period}[t.Choose(4)]
@@ -281,6 +309,7 @@ func c18ServerRun(e *Env) {
 	// the dead ones must be gone after maxRetries+2 further late ticks with nothing received from them
 	for i := 0; i < int(maxRetries)+2; i++ {
 		e.Sleep(period + time.Second)
+		lookup()
 		w.tick(time.Now())
 		e.Wait()
 		react()
